@@ -36,6 +36,20 @@ CHECKS = {
    design_ref="DESIGN.md section 3 C08",
    note="Fault model is the property's own (atomic physical commits, prefix durability). SIGKILL of real backends is not part of the quick tier. KF1 excluded by construction (transitive firewalls of stored nodes are repaired through the public API before querying).",
    engine="E1 + E3 crash images"),
+ "C09": dict(
+   technique="model-based property testing: generated op streams over the three cached map kinds on DbBacked<MockKv> with generated commit placement, reference maps as oracle",
+   category="exploration",
+   text="Op streams (new batch / write into any open batch / bulk inserts across the 1024 spill threshold / submit in any order / release k physical commits with or without waiting for the cache notifications / get) over CacheSingleMap (two value types in one column), CacheDynamicMap and CacheKeyOfSetMap with cache capacity 1..16 far below the key universe. Every read must equal the reference model of all writes issued so far (negative entries included), at every Get, before the final drain, after it and in a second pass.",
+   design_ref="DESIGN.md section 3 C09",
+   note="Single-threaded streams: the placement of commits/notifications between operations is generated, true parallel races inside one cache operation are only reached by the OS-thread stress part when built (see DESIGN.md limits). Generator precondition: writes to one key through different open batches are issued in creation order.",
+   engine="E4 storage model harness"),
+ "C10": dict(
+   technique="model-based property testing: generated multi-threaded submission plans through the public maps into WriteBehind<MockKv>; oracle = sequential application in creation order + commit-log invariant",
+   category="exploration",
+   text="Plans with 1..4 serializer workers, 1..8 submitting OS threads, up to 60 (thorough 200) batches created in one global order, filled with overlapping puts/deletes/member ops and submitted in a generated permutation, generated physical grouping and gate permits. Immediately after drop(WriteBehind) returns, the store must equal the sequential application of the batches in creation order and the commit log must list every batch exactly once in creation order.",
+   design_ref="DESIGN.md section 3 C10",
+   note="Interleavings of the pipeline threads are sampled by the OS; the oracle is interleaving independent. MockKv is the store (its own atomic commit is trusted).",
+   engine="E4 storage model harness"),
 }
 
 NOT_YET = {
@@ -76,6 +90,7 @@ def main():
         },
         "engines": [
             {"name": "E1 sequential interpreter", "path": "harness/vcore/src/seq.rs", "serves_properties": ["C01", "C03", "C07"], "kind_free_text": "program/history interpreter with from-scratch oracle, proptest driver (harness/vcore/src/driver.rs)"},
+            {"name": "E4 storage model harness", "path": "harness/vcore/src/ck_storage.rs", "serves_properties": ["C09", "C10"], "kind_free_text": "op-stream interpreters over the public storage types with reference models"},
             {"name": "E3 MockKv", "path": "harness/vcore/src/mockkv.rs", "serves_properties": ["C01", "C03", "C07", "C08", "C09", "C10"], "kind_free_text": "scripted logging KvDatabase with commit gate, grouping policy, prefix re-materialisation"},
         ],
         "checks": checks,
